@@ -259,6 +259,8 @@ func runZip(ctx *Ctx) {
 		{"../escaped.txt"}, {"a/../../escaped2.txt"}, {"/abs.txt"}, {"ok.txt", "../x", "after.txt"},
 		{"a", "a/b"}, {"a/b", "a"}, {"d/", "d/f"}, {"./f", "f"}, {"a//b"}, {".."}, {"."}, {"a/.."}, {"x/../../y"},
 		{"sub/../ok2.txt"}, {"..a/f"}, {"a/..b"}, {"/../../e"}, {"ü/ñ.txt", "sp ace/f"},
+		// siblings of the destination whose names START with the destination's name (string-prefix containment tests pass them)
+		{"../dest-backup/config"}, {"../dest2"}, {"../destination/x/y"}, {"a/../../dest.old/f"}, {"../dest/../dest-b/f"}, {"../dest/ok-inside.txt"},
 	}
 	for _, h := range hostile {
 		box := newBox()
@@ -272,7 +274,7 @@ func runZip(ctx *Ctx) {
 	if ctx.Thorough {
 		nr = 2000
 	}
-	hs := []string{"a", "b", "..", ".", "f.txt", "", "d"}
+	hs := []string{"a", "b", "..", ".", "f.txt", "", "d", "dest", "dest-b", "destx"}
 	for i := 0; i < nr; i++ {
 		box := newBox()
 		var es []string
